@@ -46,22 +46,21 @@ func (e *Engine) verifyFunction(name string, spec *FuncSpec) (fc *FnCtx, err err
 	}
 	// ghost call results
 	for _, g := range spec.Ghosts {
-		var srt string
-		switch g.Method {
-		case "Verify", "Validate", "UnmarshalBinary":
-			srt = SErr
-		default:
-			srt = SErr
+		srt := SErr
+		if g.Type != "" {
+			srt = specSort(g.Type)
 		}
 		t := fc.decls.constant("ghost_"+sanitize(g.Name), srt)
-		fr.ghostRes[fmt.Sprintf("%s#%d", g.Method, g.Ord)] = t
+		fr.ghostRes[ghostKey(g)] = t
+		fr.ghostIdx[ghostKey(g)] = g.ResIdx
+		fc.ghostNames[g.Name] = t
 	}
 	entry := st.clone()
 	fc.entry = entry
 	// requires
 	topEnv := fc.topEnv(fr, spec)
 	for _, g := range spec.Ghosts {
-		topEnv.bind(g.Name, fr.ghostRes[fmt.Sprintf("%s#%d", g.Method, g.Ord)], nil)
+		topEnv.bind(g.Name, fr.ghostRes[ghostKey(g)], nil)
 	}
 	for _, rq := range spec.Requires {
 		t := fc.evalClauseEnv(st, st, rq, topEnv)
@@ -149,6 +148,13 @@ func (e *Engine) verifyFunction(name string, spec *FuncSpec) (fc *FnCtx, err err
 		cov.Cover = true
 	}
 	return fc, nil
+}
+
+func ghostKey(g GhostBind) string {
+	if g.Kind == "call" {
+		return fmt.Sprintf("call:%s#%d/%d", g.Method, g.Ord, g.ResIdx)
+	}
+	return fmt.Sprintf("%s#%d", g.Method, g.Ord)
 }
 
 // havocNamed creates an input symbol with a stable readable name (for model extraction).
